@@ -316,7 +316,7 @@ impl World {
 
         // ---- C04 ----
         if self.is_active("C04") {
-            let limit = self.cfg.page_limit;
+            let limit = if self.cfg.page_limit < 7 { 0 } else { self.cfg.page_limit };
             let len = best.len() as u32;
             let sel: Vec<String> = (0..2).map(|k| addrs[(rotate + k * 3) % addrs.len()].clone()).collect();
             for c in 0..=len + 2 {
@@ -370,7 +370,7 @@ impl World {
 
         // ---- C05 ----
         if self.is_active("C05") {
-            let limit = self.cfg.page_limit;
+            let limit = if self.cfg.page_limit < 7 { 0 } else { self.cfg.page_limit };
             let len = best.len() as u32;
             let mut all_addrs: Vec<String> = addrs.clone();
             all_addrs.extend(self.net.wallet.bad_addresses.iter().cloned());
@@ -542,66 +542,115 @@ impl World {
     }
 }
 
-/// Digest of everything observable through the read API (used for "no effect" and twin checks).
-pub fn snapshot_digest(w: &mut World, include_utxos_length: bool) -> Result<u64, Trap> {
-    let mut f = crate::rng::Fnv::default();
+/// Everything observable through the read API as labelled entries (used for "no effect",
+/// before/after and twin comparisons; a mismatch is reported by label).
+#[derive(Clone, Debug, PartialEq, Eq)]
+pub struct Snapshot {
+    pub entries: Vec<(String, String)>,
+}
+
+impl Snapshot {
+    /// Labels whose values differ (ignoring `ignore`).
+    pub fn diff(&self, other: &Snapshot, ignore: &[&str]) -> Vec<String> {
+        let a: BTreeMap<&String, &String> = self.entries.iter().map(|(k, v)| (k, v)).collect();
+        let b: BTreeMap<&String, &String> = other.entries.iter().map(|(k, v)| (k, v)).collect();
+        let mut out = vec![];
+        for (k, v) in &a {
+            if ignore.contains(&k.as_str()) {
+                continue;
+            }
+            match b.get(k) {
+                Some(w) if w == v => {}
+                Some(w) => out.push(format!("{k}: {v} -> {w}")),
+                None => out.push(format!("{k}: {v} -> (absent)")),
+            }
+        }
+        for (k, w) in &b {
+            if !a.contains_key(k) && !ignore.contains(&k.as_str()) {
+                out.push(format!("{k}: (absent) -> {w}"));
+            }
+        }
+        out
+    }
+
+    pub fn digest(&self, include_utxos_length: bool) -> u64 {
+        let mut f = crate::rng::Fnv::default();
+        for (k, v) in &self.entries {
+            if !include_utxos_length && k == "utxos_length" {
+                continue;
+            }
+            f.write_str(k);
+            f.write_str(v);
+        }
+        f.0
+    }
+}
+
+pub fn snapshot(w: &mut World) -> Result<Snapshot, Trap> {
+    let mut entries: Vec<(String, String)> = vec![];
     let net = w.network;
     let info = canister::get_blockchain_info()?;
-    f.write_u64(info.height as u64);
-    f.write(&info.block_hash);
-    f.write_u64(info.timestamp as u64);
-    f.write_u64(info.difficulty as u64);
-    if include_utxos_length {
-        f.write_u64(info.utxos_length);
-    }
+    entries.push(("info.height".into(), info.height.to_string()));
+    entries.push(("info.block_hash".into(), hex::encode(&info.block_hash)));
+    entries.push(("info.timestamp".into(), info.timestamp.to_string()));
+    entries.push(("info.difficulty".into(), info.difficulty.to_string()));
+    entries.push(("utxos_length".into(), info.utxos_length.to_string()));
     let cfg = canister::get_config()?;
-    f.write_str(&format!("{:?}", cfg));
+    entries.push(("config".into(), format!("{:?}", cfg)));
     if !w.data_gate_open() {
-        return Ok(f.0);
+        return Ok(Snapshot { entries });
     }
     let addrs = w.net.wallet.addresses();
     let len = w.best_chain().len() as u32;
-    let limit = w.cfg.page_limit;
+    let limit = if w.cfg.page_limit < 7 { 0 } else { w.cfg.page_limit };
     for a in &addrs {
         for c in std::iter::once(None).chain((1..=len + 1).map(Some)) {
             let filter = c.map(UtxosFilterInRequest::MinConfirmations);
-            match w.all_pages(a, filter, limit)? {
+            let v = match w.all_pages(a, filter, limit)? {
                 Ok((pages, all)) => {
-                    f.write(&pages[0].tip_block_hash);
-                    f.write_u64(pages[0].tip_height as u64);
-                    for u in all {
+                    let mut f = crate::rng::Fnv::default();
+                    for u in &all {
                         f.write(&u.0);
                         f.write_u64(u.1 as u64);
                         f.write_u64(u.2);
                         f.write_u64(u.3 as u64);
                     }
+                    format!("tip {} h{} n{} sum{} #{:08x}", hex::encode(&pages[0].tip_block_hash[..4.min(pages[0].tip_block_hash.len())]), pages[0].tip_height, all.len(), all.iter().map(|u| u.2).sum::<u64>(), f.0 as u32)
                 }
-                Err(e) => f.write_str(&format!("{e:?}")),
-            }
-            match canister::get_balance_query(a, net, c)? {
-                Ok(b) => f.write_u64(b),
-                Err(e) => f.write_str(&format!("{e:?}")),
-            }
+                Err(e) => format!("{e:?}"),
+            };
+            entries.push((format!("utxos({a},{c:?})"), v));
+            let v = match canister::get_balance_query(a, net, c)? {
+                Ok(b) => b.to_string(),
+                Err(e) => format!("{e:?}"),
+            };
+            entries.push((format!("balance({a},{c:?})"), v));
         }
     }
     let tip = info.height;
     let mut s = 0;
     loop {
-        match canister::get_block_headers(s, None, net)? {
+        let v = match canister::get_block_headers(s, None, net)? {
             Ok(r) => {
-                f.write_u64(r.tip_height as u64);
+                let mut f = crate::rng::Fnv::default();
                 for h in &r.block_headers {
                     f.write(h);
                 }
+                format!("tip {} n{} #{:08x}", r.tip_height, r.block_headers.len(), f.0 as u32)
             }
-            Err(e) => f.write_str(&format!("{e:?}")),
-        }
+            Err(e) => format!("{e:?}"),
+        };
+        entries.push((format!("headers({s},None)"), v));
         s += 100;
         if s > tip {
             break;
         }
     }
-    Ok(f.0)
+    Ok(Snapshot { entries })
+}
+
+pub fn snapshot_digest(w: &mut World, include_utxos_length: bool) -> Result<u64, Trap> {
+    Ok(snapshot(w)?.digest(include_utxos_length))
 }
 
 #[allow(dead_code)]
